@@ -132,15 +132,27 @@ def prove(modules, components=()):
                         out["ok"] = False
                         out["errors"].append(f"theorem {mm.group(1)} depends on non-standard axioms {bad}")
     _locked(work)
-    # source grep: no sorry/admit/axiom/native_decide … anywhere in the library (comments stripped)
-    for dp, _, fs in os.walk(os.path.join(LEAN, "JF")):
-        for fn in fs:
-            if fn.endswith(".lean"):
-                src = strip_comments(open(os.path.join(dp, fn)).read())
-                hit = FORBIDDEN_SRC.search(src)
-                if hit:
-                    out["ok"] = False
-                    out["errors"].append(f"forbidden token {hit.group(0)!r} in {os.path.join(dp, fn)}")
+    # source grep over the import closure of the theorem modules and driver components (comments stripped):
+    # no sorry/admit/axiom/native_decide … in anything the obligations or the model executables depend on
+    todo = list(modules) + ["Driver." + c.capitalize() if c != "mp" else "Driver.MP" for c in components]
+    seen = set()
+    while todo:
+        m = todo.pop()
+        if m in seen:
+            continue
+        seen.add(m)
+        fp = os.path.join(LEAN, *m.split(".")) + ".lean"
+        if not os.path.exists(fp):
+            continue
+        raw = open(fp).read()
+        src = strip_comments(raw)
+        hit = FORBIDDEN_SRC.search(src)
+        if hit:
+            out["ok"] = False
+            out["errors"].append(f"forbidden token {hit.group(0)!r} in {fp}")
+        for mm in re.finditer(r"^import\s+((?:JF|Driver)\.[\w.]+)", raw, re.M):
+            todo.append(mm.group(1))
+    out["sources_audited"] = sorted(seen)
     return out
 
 
